@@ -163,6 +163,9 @@ func gen(r *hx.Rng, n int, tier string) []string {
 			for _, p := range pre {
 				if !seen[p] {
 					seen[p] = true
+					if r.Chance(40) {
+						p += "!" // added, then deleted before the random draws
+					}
 					pre2 = append(pre2, p)
 				}
 			}
@@ -431,7 +434,7 @@ func check(in, obs string) string {
 			// under the tape (which forces collisions) the manager must still hand out distinct, unused ids
 			seen := map[string]bool{}
 			for _, p := range strings.Split(f[2], ",") {
-				seen[p] = true
+				seen[strings.TrimSuffix(p, "!")] = true // ids of deleted keys stay handed out
 			}
 			for _, fld := range strings.Split(parts[1], ";") {
 				if fld == "err" || fld == "" {
